@@ -151,67 +151,115 @@ func genC04(r *Rng, e *Emitter, n int) {
 		} else {
 			e.tally("limits=some-disabled")
 		}
-		hx := "-"
-		if len(b) > 0 {
-			hx = hex.EncodeToString(b)
+		c04Run(e, c, lims, b)
+	}
+	// large limits, the top-level count forged up to the limit, one large member really present and the
+	// rest cut off: what is reserved must follow what the input holds, not the product of the counts
+	for i := 0; i < n/300+6; i++ {
+		l := xyzmLayouts[r.Intn(4)]
+		st := l.Stride()
+		P := 200 + r.Intn(900)
+		ring := make([]float64, 0, (P+1)*st)
+		for k := 0; k < P; k++ {
+			for d := 0; d < st; d++ {
+				ring = append(ring, float64(k*st+d))
+			}
 		}
-		input := fmt.Sprintf("(%s (%s %s %s) %s)", c.name, limStr(lims[1]), limStr(lims[2]), limStr(lims[3]), hx)
-		e.pending("C04.dec", input)
-		wkbcommon.MaxGeometryElements = lims
-		var before, after runtime.MemStats
-		var payload string
-		runtime.ReadMemStats(&before)
+		ring = append(ring, ring[:st]...)
 		var g geom.T
-		var derr error
-		panicked := false
-		func() {
-			defer func() {
-				if recover() != nil {
-					panicked = true
-				}
-			}()
-			switch c.name {
-			case "wkb":
-				g, derr = wkb.Unmarshal(b)
-			case "wkbnan":
-				g, derr = wkb.Unmarshal(b, nanOpt)
-			default:
-				g, derr = ewkb.Unmarshal(b)
+		switch r.Intn(3) {
+		case 0:
+			g = geom.NewPolygonFlat(l, ring, []int{len(ring)})
+		case 1:
+			g = geom.NewMultiLineStringFlat(l, ring, []int{len(ring)})
+		default:
+			g = geom.NewMultiPolygonFlat(l, ring, [][]int{{len(ring)}})
+		}
+		c := codecs[r.Intn(len(codecs))]
+		var bo binary.ByteOrder = wkb.XDR
+		if r.chance(1, 2) {
+			bo = wkb.NDR
+		}
+		b, err := c.marshal(g, bo)
+		if err != nil || len(b) < 9 {
+			continue
+		}
+		L := []int{2048, 4096}[r.Intn(2)]
+		R := uint32(L - r.Intn(3)*500)
+		if r.chance(1, 6) {
+			R = uint32(L + 1)
+		}
+		bo.PutUint32(b[5:], R) // the first count field after the 5-byte header (no SRID on these)
+		if r.chance(1, 2) {
+			b = b[:len(b)-r.Intn(8)]
+		}
+		e.tally("mutation=forged-to-limit-big-member")
+		c04Run(e, c, [4]int{0, L, L, L}, b)
+	}
+}
+
+// c04Run decodes b with the given limits, measuring what the decode allocates, and emits the record.
+func c04Run(e *Emitter, c codec, lims [4]int, b []byte) {
+	hx := "-"
+	if len(b) > 0 {
+		hx = hex.EncodeToString(b)
+	}
+	input := fmt.Sprintf("(%s (%s %s %s) %s)", c.name, limStr(lims[1]), limStr(lims[2]), limStr(lims[3]), hx)
+	e.pending("C04.dec", input)
+	wkbcommon.MaxGeometryElements = lims
+	var before, after runtime.MemStats
+	var payload string
+	runtime.ReadMemStats(&before)
+	var g geom.T
+	var derr error
+	panicked := false
+	func() {
+		defer func() {
+			if recover() != nil {
+				panicked = true
 			}
 		}()
-		runtime.ReadMemStats(&after)
-		alloc := after.TotalAlloc - before.TotalAlloc
-		wkbcommon.MaxGeometryElements = [4]int{0, -1, -1, -1}
-		switch {
-		case panicked:
-			payload = "(panic)"
-			e.tally("outcome=panic")
-		case derr != nil:
-			payload = sxErr(derr)
-			e.tally("outcome=" + strings.Fields(strings.Trim(payload, "()"))[1])
+		switch c.name {
+		case "wkb":
+			g, derr = wkb.Unmarshal(b)
+		case "wkbnan":
+			g, derr = wkb.Unmarshal(b, nanOpt)
 		default:
-			e.tally("outcome=ok")
-			again := guard(func() string {
-				b2, err := c.marshal(g, wkb.NDR)
-				if err != nil {
-					return "(reencode-err " + strings.TrimPrefix(sxErr(err), "(err ")
-				}
-				var g2 geom.T
-				switch c.name {
-				case "wkb":
-					g2, err = wkb.Unmarshal(b2)
-				case "wkbnan":
-					g2, err = wkb.Unmarshal(b2, nanOpt)
-				default:
-					g2, err = ewkb.Unmarshal(b2)
-				}
-				if err != nil {
-					return sxErr(err)
-				}
-				return "(ok " + raw(g2) + ")"
-			})
-			payload = "(ok " + raw(g) + " " + again + ")"
+			g, derr = ewkb.Unmarshal(b)
 		}
-		e.emit("C04.dec", input, fmt.Sprintf("(m %d %s)", alloc, payload))
+	}()
+	runtime.ReadMemStats(&after)
+	alloc := after.TotalAlloc - before.TotalAlloc
+	wkbcommon.MaxGeometryElements = [4]int{0, -1, -1, -1}
+	switch {
+	case panicked:
+		payload = "(panic)"
+		e.tally("outcome=panic")
+	case derr != nil:
+		payload = sxErr(derr)
+		e.tally("outcome=" + strings.Fields(strings.Trim(payload, "()"))[1])
+	default:
+		e.tally("outcome=ok")
+		again := guard(func() string {
+			b2, err := c.marshal(g, wkb.NDR)
+			if err != nil {
+				return "(reencode-err " + strings.TrimPrefix(sxErr(err), "(err ")
+			}
+			var g2 geom.T
+			switch c.name {
+			case "wkb":
+				g2, err = wkb.Unmarshal(b2)
+			case "wkbnan":
+				g2, err = wkb.Unmarshal(b2, nanOpt)
+			default:
+				g2, err = ewkb.Unmarshal(b2)
+			}
+			if err != nil {
+				return sxErr(err)
+			}
+			return "(ok " + raw(g2) + ")"
+		})
+		payload = "(ok " + raw(g) + " " + again + ")"
 	}
+	e.emit("C04.dec", input, fmt.Sprintf("(m %d %s)", alloc, payload))
 }
